@@ -5,7 +5,7 @@ import codec_common as cc
 CONFIG = {
     "lean_props": "J5V/Props/C01.lean",
     "extract": ["codec"],
-    "streams": [cc.ENC(12000, 240000), cc.DEC(6000, 120000)],
+    "streams": [cc.ENC(48000, 800000), cc.DEC(24000, 400000)],
     "trusted_base": cc.TRUSTED,
     "assumptions": cc.ASSUMPTIONS,
 }
